@@ -50,7 +50,21 @@ def leg_a(ctx):
     r = tlc.run('MCBlobExchange', model_cfg(2, False, ['HonestCompletes']), ctx, coverage=False, timeout=600, label='BlobExchange-asfound', workers=4)
     if 'HonestCompletes' not in r.violated:
         raise MachineryError('negative control failed: the header rule as found should violate HonestCompletes in the model')
-    ctx.leg('A', sizes=ns, invariants=INVS, negative_control='HEADERGATE=FALSE violates HonestCompletes', streams=len(streams))
+    # serving side: BlobServer.tla over every request stream of up to 5 units, any interleaving with the request tasks
+    scfg = ('SPECIFICATION Spec\nCONSTANTS\n  STREAMS <- AllStreams\n  KEEPREMAINDER = {}\nINVARIANT ServesAll\nINVARIANT OnlyVerified\n'
+            'INVARIANT ClosesGarbage\nPROPERTY EventuallyClosed\nCHECK_DEADLOCK FALSE\n')
+    res = tlc.run('MCBlobServer', scfg.format('TRUE'), ctx, timeout=1800, label='BlobServer-MC', workers=8)
+    ctx.add_tlc(res, 'BlobServer exhaustive: all request streams <= 5 units over 8 unit kinds, buffer rule of the code')
+    if res.violated:
+        ctx.violation('model:server:' + res.violated[0], f'server model property {res.violated[0]} violated', res.error_trace[:6000])
+        return None
+    tlc.require_coverage(res, ['Deliver', 'Handle', 'Idle'], 'BlobServer')
+    r = tlc.run('MCBlobServer', scfg.format('FALSE').replace('PROPERTY EventuallyClosed\n', ''), ctx, coverage=False, timeout=900,
+                label='BlobServer-slip', workers=8)
+    if 'ServesAll' not in r.violated:
+        raise MachineryError('negative control failed: a server that keeps buffered fragments after a parsed request should violate ServesAll')
+    ctx.leg('A', sizes=ns, invariants=INVS, negative_control='HEADERGATE=FALSE violates HonestCompletes; server buf+=remainder violates ServesAll',
+            streams=len(streams), server_model_states=res.distinct)
     return streams
 
 
